@@ -26,23 +26,29 @@ func dropPlans(n int) [][2]int {
 			plans = append(plans, [2]int{lo, lo + size})
 		}
 	}
-	for i := n - 1; i >= 0; i-- {
-		plans = append(plans, [2]int{i, i + 1})
+	// single elements (only for lists short enough for that to pay off)
+	if n <= 400 {
+		for i := n - 1; i >= 0; i-- {
+			plans = append(plans, [2]int{i, i + 1})
+		}
 	}
 	return plans
 }
 
-func simplifyStream(w *Workload, c any) []any {
+func simplifyStream(w *Workload, c any) []func() any {
 	sc := c.(*StreamCase)
-	var out []any
+	var out []func() any
 	add := func(f func(n *StreamCase) bool) {
-		n := cloneCase(w, sc).(*StreamCase)
-		if f(n) {
+		out = append(out, func() any {
+			n := cloneCase(w, sc).(*StreamCase)
+			if !f(n) {
+				return nil
+			}
 			if n.Prog != nil {
 				n.ProgText = n.Prog.Render()
 			}
-			out = append(out, n)
-		}
+			return n
+		})
 	}
 	// drop a file
 	for i := len(sc.Files) - 1; i >= 0; i-- {
@@ -127,80 +133,103 @@ func simplifyStream(w *Workload, c any) []any {
 	return out
 }
 
-func simplifyCall(w *Workload, c any) []any {
+func simplifyCall(w *Workload, c any) []func() any {
 	cc := c.(*CallCase)
-	var out []any
+	var out []func() any
 	for _, p := range dropPlans(len(cc.Ops)) {
-		n := cloneCase(w, cc).(*CallCase)
-		n.Ops = append(n.Ops[:p[0]], n.Ops[p[1]:]...)
-		out = append(out, n)
+		p := p
+		out = append(out, func() any {
+			n := &CallCase{Arity: cc.Arity, LoopKind: cc.LoopKind, Chunk: cc.Chunk}
+			n.Ops = append(append([]CallOp{}, cc.Ops[:p[0]]...), cc.Ops[p[1]:]...)
+			return n
+		})
 	}
 	if cc.Chunk != 0 {
-		n := cloneCase(w, cc).(*CallCase)
-		n.Chunk = 0
-		out = append(out, n)
+		out = append(out, func() any {
+			n := cloneCase(w, cc).(*CallCase)
+			n.Chunk = 0
+			return n
+		})
 	}
 	return out
 }
 
-func simplifyHeap(w *Workload, c any) []any {
+func simplifyHeap(w *Workload, c any) []func() any {
 	hc := c.(*HeapCase)
-	var out []any
+	var out []func() any
 	for _, p := range dropPlans(len(hc.Ops)) {
-		n := cloneCase(w, hc).(*HeapCase)
-		n.Ops = append(n.Ops[:p[0]], n.Ops[p[1]:]...)
-		out = append(out, n)
+		p := p
+		out = append(out, func() any {
+			n := cloneCase(w, hc).(*HeapCase)
+			n.Ops = append(n.Ops[:p[0]], n.Ops[p[1]:]...)
+			return n
+		})
 	}
 	if hc.Doc != "{}" {
-		n := cloneCase(w, hc).(*HeapCase)
-		n.Doc = "{}"
-		out = append(out, n)
+		out = append(out, func() any {
+			n := cloneCase(w, hc).(*HeapCase)
+			n.Doc = "{}"
+			return n
+		})
 	}
 	return out
 }
 
-func simplifyList(w *Workload, c any) []any {
+func simplifyList(w *Workload, c any) []func() any {
 	lc := c.(*ListCase)
-	var out []any
+	var out []func() any
 	for _, p := range dropPlans(len(lc.Ops)) {
-		n := cloneCase(w, lc).(*ListCase)
-		n.Ops = append(n.Ops[:p[0]], n.Ops[p[1]:]...)
-		out = append(out, n)
+		p := p
+		out = append(out, func() any {
+			n := cloneCase(w, lc).(*ListCase)
+			n.Ops = append(n.Ops[:p[0]], n.Ops[p[1]:]...)
+			return n
+		})
 	}
 	for i := 0; i < 3; i++ {
+		i := i
 		if lc.Init[i] != "[]" {
-			n := cloneCase(w, lc).(*ListCase)
-			n.Init[i] = "[]"
-			out = append(out, n)
+			out = append(out, func() any {
+				n := cloneCase(w, lc).(*ListCase)
+				n.Init[i] = "[]"
+				return n
+			})
 		}
 	}
 	return out
 }
 
-func simplifyHist(w *Workload, c any) []any {
+func simplifyHist(w *Workload, c any) []func() any {
 	hc := c.(*HistCase)
-	var out []any
+	var out []func() any
 	if hc.Kind != "history" {
 		return nil
 	}
 	for _, p := range dropPlans(len(hc.Order)) {
-		n := cloneCase(w, hc).(*HistCase)
-		n.Order = append(n.Order[:p[0]], n.Order[p[1]:]...)
-		if len(n.Order) > 0 {
-			out = append(out, n)
-		}
+		p := p
+		out = append(out, func() any {
+			n := cloneCase(w, hc).(*HistCase)
+			n.Order = append(n.Order[:p[0]], n.Order[p[1]:]...)
+			if len(n.Order) == 0 {
+				return nil
+			}
+			return n
+		})
 	}
 	return out
 }
 
-func simplifyProc(w *Workload, c any) []any {
+func simplifyProc(w *Workload, c any) []func() any {
 	pc := c.(*ProcCase)
-	var out []any
+	var out []func() any
 	add := func(f func(n *ProcCase) bool) {
-		n := cloneCase(w, pc).(*ProcCase)
-		if f(n) {
-			out = append(out, n)
-		}
+		out = append(out, func() any {
+			n := cloneCase(w, pc).(*ProcCase)
+			if !f(n) {
+				return nil
+			}
+			return n
+		})
 	}
 	if len(pc.Env) > 0 {
 		add(func(n *ProcCase) bool { n.Env = nil; return true })
